@@ -2204,6 +2204,14 @@ void Interpreter::assign_struct_to_array_element(const std::string &array_name,
         throw std::runtime_error("Not a struct array: " + array_name);
     }
 
+    // const配列の要素は丸ごとの構造体代入でも変更不可
+    // （assign_array_element と同じ規則: ps[i] = q）
+    if (array_var->is_const && array_var->is_assigned) {
+        error_msg(DebugMsgId::CONST_REASSIGN_ERROR, array_name.c_str());
+        throw std::runtime_error("Cannot assign to const variable: " +
+                                 array_name);
+    }
+
     // 範囲チェック
     if (index < 0 || index >= array_var->array_size) {
         debug_msg(DebugMsgId::ARRAY_INDEX_OUT_OF_BOUNDS, index,
